@@ -49,7 +49,7 @@ def run(R, tier):
     # reported behaviour-preserving rewrites (shared generic helper, direct unsigned parse); it is retired.
     # ---- R19.10 value tables of the conversions (sa/rules/chanspec.py) -----------------------------------------------------
     from . import chanspec as CS
-    tab = CS.table()
+    tab = CS.table(tier == "thorough")
     per = {}
     for (ty, txt), (got, ref, cb) in sorted(tab.items(), key=lambda kv: (kv[0][0], kv[0][1])):
         d = per.setdefault(ty, {"n": 0, "bad": [], "body": cb})
